@@ -14,7 +14,6 @@ import Gotree.Lemmas.C14Doc
 import Gotree.Lemmas.C14Bag
 import Gotree.Lemmas.C14BagSpec
 import Gotree.Lemmas.C14CliThr
-import Gotree.Gen.C14Sites
 
 namespace Gotree.C14
 open Gotree
@@ -571,74 +570,6 @@ example : Go.bagRun (Go.G.ofT exT) [.add (some 2), .add (some 2), .add (some 1),
     [["ok"], ["ok"], ["err", "Internal node given to TipBag.AddTip"], ["err", "Nil node given to TipBag.AddTip"], ["1"], ["A"], [], ["0"]] := by
   decide +kernel
 
-/-- one fact of the table `Gen/C14Sites.lean` (regenerated from the working tree by harness/c14/extract.go on
-    every run; receiver, arguments and named results are p0, p1, …; locals x0, x1, …) -/
-def fact (key : String) : List String := (Gotree.Gen.C14Sites.facts.lookup key).getD ["<missing>"]
-
-/-- constants and sentinels the models spell as literals: `Go.weight` tests `metric == 1`, `metric == 2`;
-    `NIL = -1` (Core) -/
-theorem sitesCheck_consts :
-    fact "consts" = ["DISTANCE_METRIC_BRLEN = 0", "DISTANCE_METRIC_BOOTS = 1", "DISTANCE_METRIC_NONE = 2",
-      "NIL_LENGTH = -1.0", "NIL_SUPPORT = -1.0"] := by decide +kernel
-
-/-- `pathLengths` as `Go.pathLengths` / `Go.weight` / `Metric.w` read it: a distance is written at
-    `lengths[cur.Id()]`; the weight starts at 1.0; supports default to
-    1.0, lengths to 0.0, every other metric value reads the length; the walk goes on with `curlength+l` -/
-theorem sitesCheck_pathLengths :
-    fact "pathLengths.switch" = ["DISTANCE_METRIC_BOOTS: Support() == NIL_SUPPORT 1.0", "DISTANCE_METRIC_NONE: 1.0",
-      "default: Length() == NIL_LENGTH 0.0"] ∧
-    fact "pathLengths.writes" = ["p2[p0.Id()] = p3"] ∧
-    fact "pathLengths.recur" = ["pathLengths(x0, p0, p2, p3+x1, p4)"] ∧
-    fact "pathLengths.define" = ["x0 := 1.0"] := by decide +kernel
-
-/-- `ToDistanceMatrix` as `Go.toDistanceMatrix` reads it: `Tips()`, sorted by `Name() <`, numbered by
-    `SetId(i)` in that order, one walk per tip from `prev = nil`, `curlength = 0` into its own row -/
-theorem sitesCheck_toDistanceMatrix :
-    fact "ToDistanceMatrix.compare" = ["x0[x1].Name() < x0[x2].Name()"] ∧
-    fact "ToDistanceMatrix.calls" = ["x0[x1].SetId(x1)", "pathLengths(x0, nil, x1[x2], 0, p1)"] := by decide +kernel
-
-/-- `AvgDistanceMatrix` as `Go.avgStepG` / `Go.avgFinish` read it: the divisor is a counter whose only write is
-    `++` (theorem `avg_ignores_ids`), the tests are `!=`, the accumulation is `+=`, the end a `/=` -/
-theorem sitesCheck_avg :
-    fact "AvgDistanceMatrix.divisor" = ["float64(x0)"] ∧
-    fact "AvgDistanceMatrix.divisor.writes" = ["x0++"] ∧
-    fact "AvgDistanceMatrix.compare" = ["x0.Err != nil", "p2 == nil", "len(x0) != len(p3)", "x0.Name() != x1[x2].Name()"] ∧
-    fact "AvgDistanceMatrix.arith" = ["p2[x0][x1] += x2[x0][x1]", "p2[x0][x1] /= float64(x2)"] ∧
-    fact "AvgDistanceMatrix.calls" = ["x0.Tree.ToDistanceMatrix(p0)", "x0.Tree.ToDistanceMatrix(p0)"] := by decide +kernel
-
-/-- the threshold tests of the cut as `Go.cutStep` / `Go.cutRecur` / `compL` read them: strict `<` with the
-    threshold on the right at both sites, nothing else compares with it; the flood skips the node it came from
-    and marks the branches it crosses; a cut branch keeps its tip ends -/
-theorem sitesCheck_cut :
-    fact "CutEdgesMaxLength.threshold" = ["x0.Length() < p1"] ∧
-    fact "cutEdgesMaxLengthRecur.threshold" = ["x0.Length() < p4"] ∧
-    fact "cutEdgesMaxLengthRecur.visited" = ["p5[x0.Id()] = true"] ∧
-    fact "CutEdgesMaxLength.calls" = ["p0.cutEdgesMaxLengthRecur(x0, x1.Left(), x1.Right(), p1, x2)",
-      "p0.cutEdgesMaxLengthRecur(x0, x1.Right(), x1.Left(), p1, x2)"] ∧
-    fact "cutEdgesMaxLengthRecur.calls" = ["p0.cutEdgesMaxLengthRecur(p1, x0, p2, p4, p5)"] := by decide +kernel
-
-/-- `TipBag` as `Go.addTip` / `Go.bagNames` / `Go.bagRun` read it -/
-theorem sitesCheck_tipbag :
-    fact "AddTip.writes" = ["p0.tips[p1.Name()] = p1"] ∧
-    fact "TipBag.Tips.calls" = ["sort.Strings(x0)"] := by decide +kernel
-
-/-- the command-line glue as `Cli.metricOfFlag` / `Cli.matrixCmd` / `Cli.cutCmd` / `Cli.matrixText` / `Cli.bagLine`
-    read it: spelling -> constant, an unknown spelling returns, `--avg` chooses the branch, flag names, short
-    names and defaults (`-m brlen`, `-l 0.5`, `-i stdin`, `-o stdout`), `%.12f`, the id / size / names line -/
-theorem sitesCheck_cli :
-    fact "matrix.switch" = ["\"brlen\": DISTANCE_METRIC_BRLEN", "\"boot\": DISTANCE_METRIC_BOOTS",
-      "\"none\": DISTANCE_METRIC_NONE", "default: return"] ∧
-    fact "matrix.avgTest" = ["matrixavg"] ∧
-    fact "matrix.calls" = ["openWriteFile(outtreefile)", "readTrees(intreefile)", "tree.AvgDistanceMatrix(x0, x1)",
-      "x0.Tree.ToDistanceMatrix(x1)"] ∧
-    fact "matrix.formats" = ["distance metric %s in not supported", "%d\n", "%.12f", "%d\n", "%.12f"] ∧
-    fact "matrix.flags" = ["StringVarP &intreefile \"input\" \"i\" \"stdin\"", "StringVarP &metric \"metric\" \"m\" \"brlen\"",
-      "BoolVar &matrixavg \"avg\" \"\" false", "StringVarP &outtreefile \"output\" \"o\" \"stdout\""] ∧
-    fact "cut.calls" = ["openWriteFile(outtreefile)", "readTrees(intreefile)", "x0.Tree.CutEdgesMaxLength(cutlengthmax)"] ∧
-    fact "cut.formats" = ["%d\t%d\t"] ∧
-    fact "cut.flags" = ["Float64VarP &cutlengthmax \"max-length\" \"l\" 0.5", "StringVarP &outtreefile \"output\" \"o\" \"stdout\""] := by
-  decide +kernel
-
 /-- the oracle of the op `C14.tipbag` holds on the model: whatever script of `AddTip` (nil, inner node, tip, the
     same tip again, another tip of the same name) / `Clear` / `Size` / `Tips` calls is run on a fresh bag, the
     results of `Go.bagRun` are what tree/tipbags.go documents (`Go.bagSpecOK`, which keeps no map) -/
@@ -664,5 +595,19 @@ example : Cli.parseSpecial "-Inf" = some .ninf ∧ Cli.parseSpecial "INFINITY" =
 example : Cli.Thr.pinf.forTree exT = 4 ∧ Cli.Thr.nan.forTree exT = -2 ∧
     Go.cutGo (Cli.Thr.pinf.forTree exT) exT = .ok [["A", "B", "C", "D"]] ∧
     Go.cutGo (Cli.Thr.ninf.forTree exT) exT = .ok [["A"], ["B"], ["C"], ["D"]] := by decide +kernel
+
+/-- round 7b: the reading of `-l` with hexadecimal floats and digit separators changes nothing on a text that has
+    neither an underscore nor a `0x` prefix -/
+theorem cutCmdThrX_conservative (s : String) (input : Except String (List Cli.InTree))
+    (h1 : s.toList.contains '_' = false) (h2 : Cli.hasHexPrefix s.toList = false) :
+    Cli.parseThrX s = Cli.parseThr s ∧ Cli.cutCmdThrX (some s) input = Cli.cutCmdThr (some s) input :=
+  ⟨Cli.parseThrX_plain s h1 h2, Cli.cutCmdThrX_plain s input h1 h2⟩
+
+example : Cli.parseThrX "0x1p-1" = some (.fin (1 / 2)) ∧ Cli.parseThrX "0X1.8P+1" = some (.fin 3) ∧
+    Cli.parseThrX "0x_1p0" = some (.fin 1) ∧ Cli.parseThrX "-0x1p-2" = some (.fin (-1 / 4)) ∧
+    Cli.parseThrX "0x1p" = none ∧ Cli.parseThrX "0x10" = none ∧ Cli.parseThrX "1__0" = none ∧ Cli.parseThrX "_1" = none ∧
+    Cli.parseThrX "1_" = none ∧ Cli.parseThrX "1e_5" = none ∧ Cli.parseThrX "0_.5" = none ∧ Cli.parseThrX "in_f" = none := by
+  decide +kernel
+example : ("0.5".toList.contains '_' = false) ∧ Cli.hasHexPrefix "0.5".toList = false := by decide +kernel
 
 end Gotree.C14
